@@ -53,7 +53,8 @@ def main():
   cov = json.load(open(os.path.join(tmp, "cov.json")))["files"]
   for f, spans in sorted(ranges.items()):
     path = os.path.join(REPO, f)
-    key = [k for k in cov if os.path.realpath(k) == os.path.realpath(path) or k.endswith(f)]
+    key = [k for k in cov if os.path.realpath(os.path.join(VERIF, k)) == os.path.realpath(path)
+           or os.path.realpath(k) == os.path.realpath(path)]
     if not key:
       print("== %s: NOT EXECUTED AT ALL" % f)
       continue
